@@ -117,6 +117,14 @@ def translate_source():
     except Exception as e:
         open(out9, 'w').write('/-! source-level translation of UbxCfgValGet.unpack failed on this tree -/\n')
         status['Valget'] = 'untranslatable: translator failed (' + type(e).__name__ + ')'
+    # and the frame registry
+    out10 = os.path.join(LEAN, 'UbxModel', 'Gen', 'SrcFactory.lean')
+    try:
+        r = sh([PY, os.path.join(ROOT, 'tools', 'pysrc2lean_factory.py'), REPO, out10], timeout=120)
+        status['Factory'] = r.stdout.strip().splitlines()[-1]
+    except Exception as e:
+        open(out10, 'w').write('/-! source-level translation of the frame registry failed on this tree -/\n')
+        status['Factory'] = 'untranslatable: translator failed (' + type(e).__name__ + ')'
     # and the gpsd handshake
     out8 = os.path.join(LEAN, 'UbxModel', 'Gen', 'SrcGpsd.lean')
     try:
@@ -142,6 +150,7 @@ SRC_THEOREMS = {
     'Render': ['r_lever', 'r_gnssid', 'r_fusion', 'r_gpsfix', 'r_flags_enable', 'r_alg_flags', 'r_init1', 'r_init2', 'r_sens1', 'r_sens2', 'r_nav_flags',
                'r_mode', 'r_proto'],
     'Valget': ['unpack_consumed', 'valget_body_ok', 'valget_body_err', 'valget_loop', 'hdr_decode', 'valget_prelude', 'valget_unpack'],
+    'Factory': ['getitem_setitem', 'getitem_err', 'lookupR_register', 'agree_empty', 'fac_register', 'fac_build_with_data', 'fac_build'],
     'Gpsd': ['g_parse_version', 'g_devices_loop', 'g_parse_devices', 'g_line', 'g_lines', 'g_parse_gpsd_msg', 'absG_init', 'g_ready'],
     'Server': ['srv_check_poll', 'srv_check_ack_nak', 'srv_check_mga', 'srv_send', 'srv_wait', 'srv_set', 'srv_set_mga',
                'srv_set_mga_other_class', 'srv_fire_and_forget', 'srv_set_retries', 'srv_set_retry_delay', 'srv_poll'],
@@ -158,6 +167,7 @@ TRANSFERS = {   # module -> (classes it needs, theorems)
     'TransferHelpers': (['Helpers'], ['src_enable_gnss_spec', 'src_disable_gnss_spec', 'src_lever_arm_first']),
     'TransferRender': (['Render'], ['src_renderers_total']),
     'TransferValget': (['Valget', 'CfgItem', 'CfgKeyData', 'Types'], ['src_valget_terminates', 'src_valget_dichotomy', 'src_valget_reencode']),
+    'TransferFactory': (['Factory'], ['src_registry_refines', 'src_last_registration_wins', 'src_registration_local', 'src_unregistered']),
     'TransferGpsd': (['Gpsd'], ['src_chunk_never_raises', 'src_decision_table', 'src_ready_after', 'src_requested_kept']),
     'TransferServer': (['Server', 'UbxParser'], ['src_set_returns_bounded', 'src_set_mga_returns_bounded', 'src_poll_returns_bounded', 'src_set_result',
                                                  'src_poll_result', 'src_set_kth', 'src_set_like_fresh', 'src_poll_like_fresh', 'src_poll_all_same']),
